@@ -46,6 +46,7 @@ type wobs struct {
 	wb, we int64
 	fan    []byte // per reader: '-', 'a', 'f'
 	err    error
+	ssrcIn uint32 // SSRC of the packet as handed to WritePacketRTP
 }
 
 type cobs struct {
@@ -138,6 +139,20 @@ type harness struct {
 	notes    []string
 	progress atomic.Int64
 	tWrite   time.Duration
+	pwid     []int // stage-2 write j carries the payload of publisher write pwid[j] (identity without relay)
+
+	// relay (second direction): publisher → server session → stream
+	pub         *gortsplib.Client
+	pubDesc     *description.Session
+	pubOut      []byte // per publisher write: 'a' accepted, 'f' queue full, 'e' other error
+	pubStamp    []int64
+	pubMedia    map[*description.Media]int
+	relayMu     sync.Mutex
+	relayRecs   []rec  // what the server session's callback saw
+	relayArr    []aobs // UDP: datagrams the server's RTP socket read from the publisher
+	pkPub       []pktMeta
+	fpNoMedia   map[[3]uint32]int
+	pubRecorded atomic.Bool
 }
 
 func (h *harness) note(f string, a ...any) {
@@ -171,6 +186,9 @@ func (h *harness) OnDescribe(_ *gortsplib.ServerHandlerOnDescribeCtx) (*base.Res
 func (h *harness) OnSetup(ctx *gortsplib.ServerHandlerOnSetupCtx) (*base.Response, *gortsplib.ServerStream, error) {
 	rd := h.readerOfQuery(ctx.Query)
 	if rd == nil {
+		if h.sc.Relay != "" && strings.HasPrefix(ctx.Path, "/pub") {
+			return &base.Response{StatusCode: base.StatusOK}, nil, nil
+		}
 		return &base.Response{StatusCode: base.StatusBadRequest}, nil, nil
 	}
 	h.mu.Lock()
@@ -180,6 +198,26 @@ func (h *harness) OnSetup(ctx *gortsplib.ServerHandlerOnSetupCtx) (*base.Respons
 	rd.sess = ctx.Session
 	rd.mu.Unlock()
 	return &base.Response{StatusCode: base.StatusOK}, h.stream, nil
+}
+
+func (h *harness) OnAnnounce(_ *gortsplib.ServerHandlerOnAnnounceCtx) (*base.Response, error) {
+	if h.sc.Relay == "" {
+		return &base.Response{StatusCode: base.StatusBadRequest}, nil
+	}
+	return &base.Response{StatusCode: base.StatusOK}, nil
+}
+
+// OnRecord: the second direction - every packet the session receives is re-written to the stream.
+func (h *harness) OnRecord(ctx *gortsplib.ServerHandlerOnRecordCtx) (*base.Response, error) {
+	ad := ctx.Session.AnnouncedDescription()
+	idx := map[*description.Media]int{}
+	for i, m := range ad.Medias {
+		idx[m] = i
+	}
+	ctx.Session.OnPacketRTPAny(func(medi *description.Media, forma format.Format, pkt *rtp.Packet) {
+		h.onRelay(idx[medi], forma.PayloadType(), pkt)
+	})
+	return &base.Response{StatusCode: base.StatusOK}, nil
 }
 
 func (h *harness) OnPlay(_ *gortsplib.ServerHandlerOnPlayCtx) (*base.Response, error) {
@@ -355,9 +393,25 @@ func (h *harness) start() error {
 		h.ssrc = append(h.ssrc, row)
 	}
 	h.fp = map[fpKey][]int{}
+	h.fpNoMedia = map[[3]uint32]int{}
 	for wid, p := range h.pk {
 		k := fpKey{p.media, p.pt, p.seq, p.ts}
 		h.fp[k] = append(h.fp[k], wid)
+		h.fpNoMedia[[3]uint32{uint32(p.pt), uint32(p.seq), p.ts}] = wid
+	}
+	if sc.Relay == "udp" {
+		h.ns.onSrvRead = func(b []byte) {
+			pt, seq, ts, _ := parseHdr(b)
+			if b[0]>>6 != 2 {
+				return
+			}
+			if wid, ok := h.fpNoMedia[[3]uint32{uint32(pt), uint32(seq), ts}]; ok {
+				st := h.clock.Add(1)
+				h.relayMu.Lock()
+				h.relayArr = append(h.relayArr, aobs{wid: wid, stamp: st})
+				h.relayMu.Unlock()
+			}
+		}
 	}
 	for i := range sc.Readers {
 		sp := &sc.Readers[i]
@@ -382,6 +436,9 @@ func (h *harness) stop() {
 		if rd.c != nil {
 			rd.c.Close()
 		}
+	}
+	if h.pub != nil {
+		h.pub.Close()
 	}
 	if h.stream != nil {
 		h.stream.Close()
@@ -721,9 +778,55 @@ func (h *harness) schedule(wid int, final bool) {
 	}
 }
 
+// streamWrite is one ServerStream.WritePacketRTP with everything observed around it.
+func (h *harness) streamWrite(pubWid int, p pktMeta, pkt *rtp.Packet) {
+	nR := len(h.readers)
+	h.curErr = bytes.Repeat([]byte{'-'}, nR)
+	w := wobs{wb: h.clock.Add(1), ssrcIn: pkt.SSRC}
+	w.err = h.stream.WritePacketRTP(h.medias[p.media], pkt)
+	w.we = h.clock.Add(1)
+	w.fan = make([]byte, nR)
+	for i, rd := range h.readers {
+		w.fan[i] = '-'
+		rd.mu.Lock()
+		ss := rd.sess
+		rd.mu.Unlock()
+		if ss != nil {
+			cur := h.sentOf(ss, p.media, p.fi)
+			if cur != rd.prevSent[p.media][p.fi] {
+				rd.prevSent[p.media][p.fi] = cur
+				w.fan[i] = 'a'
+				if h.curErr[i] == 'f' {
+					w.fan[i] = 'f'
+				} else {
+					rd.accCount.Add(1)
+				}
+			}
+		}
+		if w.fan[i] == '-' && h.curErr[i] == 'f' {
+			h.note("write %d: queue-full error for reader %d without a fan-out", pubWid, i)
+		}
+	}
+	if pkt.SSRC != h.ssrc[p.media][p.fi] {
+		h.note("write %d: packet SSRC after the call is %d, local SSRC %d", pubWid, pkt.SSRC, h.ssrc[p.media][p.fi])
+	}
+	h.relayMu.Lock()
+	h.writes = append(h.writes, w)
+	h.pwid = append(h.pwid, pubWid)
+	h.relayMu.Unlock()
+}
+
+func (h *harness) pace(wid int) {
+	sc := h.sc
+	if sc.Pace > 0 && wid%sc.Pace == sc.Pace-1 {
+		time.Sleep(50 * time.Microsecond)
+	} else if sc.Mode == "racy" {
+		runtime.Gosched()
+	}
+}
+
 func (h *harness) writeAll() {
 	sc := h.sc
-	nR := len(h.readers)
 	h.writes = make([]wobs, 0, sc.N)
 	for wid := 0; wid < sc.N; wid++ {
 		h.schedule(wid, false)
@@ -732,42 +835,144 @@ func (h *harness) writeAll() {
 			Header:  rtp.Header{Version: 2, PayloadType: p.pt, SequenceNumber: p.seq, Timestamp: p.ts, Marker: p.marker, SSRC: p.ssrcIn},
 			Payload: genPayload(sc.Seed, wid, p.size),
 		}
-		h.curErr = bytes.Repeat([]byte{'-'}, nR)
-		w := wobs{wb: h.clock.Add(1)}
-		w.err = h.stream.WritePacketRTP(h.medias[p.media], pkt)
-		w.we = h.clock.Add(1)
-		w.fan = make([]byte, nR)
-		for i, rd := range h.readers {
-			w.fan[i] = '-'
-			rd.mu.Lock()
-			ss := rd.sess
-			rd.mu.Unlock()
-			if ss != nil {
-				cur := h.sentOf(ss, p.media, p.fi)
-				if cur != rd.prevSent[p.media][p.fi] {
-					rd.prevSent[p.media][p.fi] = cur
-					w.fan[i] = 'a'
-					if h.curErr[i] == 'f' {
-						w.fan[i] = 'f'
-					} else {
-						rd.accCount.Add(1)
-					}
-				}
-			}
-			if w.fan[i] == '-' && h.curErr[i] == 'f' {
-				h.note("write %d: queue-full error for reader %d without a fan-out", wid, i)
-			}
-		}
-		if pkt.SSRC != h.ssrc[p.media][p.fi] {
-			h.note("write %d: packet SSRC after the call is %d, local SSRC %d", wid, pkt.SSRC, h.ssrc[p.media][p.fi])
-		}
-		h.writes = append(h.writes, w)
+		h.streamWrite(wid, p, pkt)
 		h.progress.Store(int64(wid + 1))
-		if sc.Pace > 0 && wid%sc.Pace == sc.Pace-1 {
-			time.Sleep(50 * time.Microsecond)
-		} else if sc.Mode == "racy" {
-			runtime.Gosched()
+		h.pace(wid)
+	}
+}
+
+// ---------------------------------------------------------------------------------------------
+// second direction: a recording client publishes, the server session re-writes to the stream
+// ---------------------------------------------------------------------------------------------
+
+func (h *harness) startPublisher() error {
+	sc := h.sc
+	scheme := "rtsp"
+	if sc.TLS {
+		scheme = "rtsps"
+	}
+	var ms []*description.Media
+	h.pubMedia = map[*description.Media]int{}
+	for m, md := range h.medias {
+		var fs []format.Format
+		for _, pt := range sc.Medias[m] {
+			f := &format.Generic{PayloadTyp: uint8(pt), RTPMa: "private/90000"}
+			if err := f.Init(); err != nil {
+				return err
+			}
+			fs = append(fs, f)
 		}
+		nm := &description.Media{Type: md.Type, Formats: fs}
+		h.pubMedia[nm] = m
+		ms = append(ms, nm)
+	}
+	h.pubDesc = &description.Session{Medias: ms}
+	qs := sc.PubCap
+	if qs == 0 {
+		qs = 256
+	}
+	c := &gortsplib.Client{
+		ReadTimeout:    20 * time.Second,
+		WriteTimeout:   20 * time.Second,
+		WriteQueueSize: qs,
+		MaxPacketSize:  sc.MaxPkt,
+		// sender reports share the write queue (one goes out right after the first packet of every format)
+		DisableRTCPSenderReports: true,
+		TLSConfig:                &tls.Config{InsecureSkipVerify: true},
+		OnDecodeError:            func(err error) { h.note("publisher decode error: %v", err) },
+		OnPacketsLost:            func(uint64) {},
+	}
+	if sc.Relay == "udp" {
+		c.Protocol = new(gortsplib.ProtocolUDP)
+	} else {
+		c.Protocol = new(gortsplib.ProtocolTCP)
+	}
+	if err := c.StartRecording(fmt.Sprintf("%s://%s/pub", scheme, h.addr), h.pubDesc); err != nil {
+		return fmt.Errorf("publisher: %w", err)
+	}
+	h.pub = c
+	return nil
+}
+
+// onRelay runs in the server: the session's OnPacketRTP callback.
+func (h *harness) onRelay(m int, fpt uint8, pkt *rtp.Packet) {
+	r := rec{m: m, pt: fpt, hpt: pkt.PayloadType, seq: pkt.SequenceNumber, ts: pkt.Timestamp,
+		marker: pkt.Marker, ssrc: pkt.SSRC, dg: digest(pkt.Payload), stamp: h.clock.Add(1)}
+	r.wid, r.why = h.identify(m, fpt, pkt)
+	h.relayMu.Lock()
+	h.relayRecs = append(h.relayRecs, r)
+	h.relayMu.Unlock()
+	if r.wid < 0 {
+		return
+	}
+	h.streamWrite(r.wid, h.pk[r.wid], pkt)
+}
+
+// relayCount: packets the server session received; settled: every one of them has been re-written
+// to the stream (the write returned).
+func (h *harness) relayCount() (n int, settled bool) {
+	h.relayMu.Lock()
+	defer h.relayMu.Unlock()
+	valid := 0
+	for _, r := range h.relayRecs {
+		if r.wid >= 0 {
+			valid++
+		}
+	}
+	return len(h.relayRecs), valid == len(h.writes)
+}
+
+func (h *harness) publishAll() {
+	sc := h.sc
+	h.pubOut = make([]byte, sc.N)
+	h.pubStamp = make([]int64, sc.N)
+	for wid := 0; wid < sc.N; wid++ {
+		h.schedule(wid, false)
+		p := h.pk[wid]
+		h.pubStamp[wid] = h.clock.Add(1)
+		pkt := &rtp.Packet{
+			Header:  rtp.Header{Version: 2, PayloadType: p.pt, SequenceNumber: p.seq, Timestamp: p.ts, Marker: p.marker, SSRC: p.ssrcIn},
+			Payload: genPayload(sc.Seed, wid, p.size),
+		}
+		err := h.pub.WritePacketRTP(h.pubDesc.Medias[p.media], pkt)
+		var full liberrors.ErrClientWriteQueueFull
+		switch {
+		case err == nil:
+			h.pubOut[wid] = 'a'
+		case errors.As(err, &full):
+			h.pubOut[wid] = 'f'
+		default:
+			h.pubOut[wid] = 'e'
+			h.note("publisher write %d: %v", wid, err)
+		}
+		h.progress.Store(int64(wid + 1))
+		h.pace(wid)
+	}
+	// let the publisher's queue and the server drain
+	want := 0
+	for _, o := range h.pubOut {
+		if o == 'a' {
+			want++
+		}
+	}
+	start := time.Now()
+	last, lastN := time.Now(), -1
+	for {
+		n, settled := h.relayCount()
+		if n != lastN {
+			last, lastN = time.Now(), n
+		}
+		if sc.Relay == "tcp" && n >= want && settled {
+			break
+		}
+		quiet := 1500 * time.Millisecond
+		if sc.Relay == "udp" {
+			quiet = 80 * time.Millisecond
+		}
+		if (time.Since(last) > quiet && settled) || time.Since(start) > 20*time.Second {
+			break
+		}
+		time.Sleep(300 * time.Microsecond)
 	}
 }
 
@@ -825,7 +1030,14 @@ func (h *harness) run() error {
 		}
 	}
 	t0 := time.Now()
-	h.writeAll()
+	if h.sc.Relay != "" {
+		if err := h.startPublisher(); err != nil {
+			return err
+		}
+		h.publishAll()
+	} else {
+		h.writeAll()
+	}
 	h.schedule(h.sc.N, true)
 	wg.Wait()
 	h.tWrite = time.Since(t0)
